@@ -6,7 +6,7 @@ import ast
 
 from .. import facts, fitrules
 from ..astutil import (call_name, calls_in, const_str, dotted, kwarg, literal,
-                       norm, walk_no_nested)
+                       norm, str_template, walk_no_nested)
 from ..cfg import CFG
 from ..dataflow import reaching_defs
 from ..guards import conditions_at
@@ -365,21 +365,23 @@ def r4_persistence(ctx):
               "and vary")
     keyfmt = {}
     for st in walk_no_nested(gf, False):
-        if isinstance(st, ast.Assign) and isinstance(st.value, ast.Call) and \
-                isinstance(st.value.func, ast.Attribute) and \
-                st.value.func.attr == "format":
-            keyfmt[norm(st.targets[0])] = const_str(st.value.func.value)
+        if isinstance(st, ast.Assign) and str_template(st.value) and \
+                not isinstance(st.value, ast.Constant):
+            keyfmt[norm(st.targets[0])] = str_template(st.value)
     for s in stores:
         attr = s.targets[0].attr
         v = s.value
         kname = norm(v.slice) if isinstance(v, ast.Subscript) else None
         fmt = keyfmt.get(kname)
+        if fmt is None and isinstance(v, ast.Subscript):
+            fmt = str_template(v.slice)
         ctx.check(fmt == f"fit param {{}} {attr}", s,
                   f".{attr} <- cdict['{fmt}']",
                   f"parameter .{attr} is overridden from '{fmt}'")
         conds = conditions_at(s)
-        ctx.check(any(a.pol and a.text == f"{kname} in cdict"
-                      for a in conds), s,
+        ctx.check(any(a.pol and a.text.endswith(" in cdict") and (
+            a.text == f"{kname} in cdict" or str_template(
+                a.node.left) == fmt) for a in conds), s,
                   f".{attr} overridden only when stored",
                   f".{attr} override is not guarded by the key's presence")
     ok = any(call_name(c) == "model.get_init_parms" for c in calls_in(gf))
@@ -389,9 +391,10 @@ def r4_persistence(ctx):
     w = {}
     for st in walk_no_nested(sf, False):
         if isinstance(st, ast.Assign) and isinstance(
-                st.targets[0], ast.Subscript) and isinstance(
-                    st.targets[0].slice, ast.Call):
-            fmt = const_str(st.targets[0].slice.func.value)
+                st.targets[0], ast.Subscript) and str_template(
+                    st.targets[0].slice) and not isinstance(
+                        st.targets[0].slice, ast.Constant):
+            fmt = str_template(st.targets[0].slice)
             w[fmt] = norm(st.value)
     ctx.check(w == {"fit param {} value": "params[p].value",
                     "fit param {} vary": "params[p].vary"}, sf,
